@@ -36,6 +36,9 @@ pub struct GenCfg {
     pub marker: bool,
     /// now and then a value of 9-12 MiB
     pub huge_value: bool,
+    /// /100 chance a write tx creates a few dozen sibling buckets under one parent, so that
+    /// whole leaves consist of bucket entries
+    pub p_many_buckets: u32,
 }
 
 impl GenCfg {
@@ -88,6 +91,7 @@ impl GenCfg {
             delete_heavy,
             marker: false,
             huge_value: false,
+            p_many_buckets: *r.pick(&[0, 0, 10, 30]),
         }
     }
 }
@@ -236,7 +240,10 @@ impl Gen {
                     return Some(Step::Begin { rw: false });
                 }
                 let bulk = self.r.chance(self.cfg.p_bulk as u64, 100) || (self.txs_done == 1 && self.r.chance(1, 2));
-                if bulk {
+                if self.r.chance(self.cfg.p_many_buckets as u64, 100) {
+                    self.steps_left_in_tx = 0;
+                    self.plan_many_buckets(ctx.committed);
+                } else if bulk {
                     self.steps_left_in_tx = 0;
                     self.plan_bulk(ctx.committed);
                 } else {
@@ -325,6 +332,36 @@ impl Gen {
         self.queue.push_back(Step::Commit);
     }
 
+    /// A few dozen sibling buckets under one parent: leaves and branches made of bucket entries.
+    fn plan_many_buckets(&mut self, committed: &MBucket) {
+        *self.macros_used.entry("many_buckets").or_default() += 1;
+        let parent: Path = match self.pick_path(committed, true) {
+            Some(p) if p.len() <= 2 && self.r.chance(2, 3) => p,
+            _ => {
+                let name = self.bucket_name();
+                let via = self.via();
+                self.queue.push_back(Step::GetOrCreate { path: vec![], name: name.clone(), via });
+                vec![name.bytes()]
+            }
+        };
+        let n = self.r.range(12, 70) as u32;
+        let pad = *self.r.pick(&[0usize, 40, 90]);
+        let start = self.r.below(100) as u32;
+        for j in 0..n {
+            let name = Blob::Raw(format!("S{:03}{}", (start + j) % 100, "s".repeat(pad)).into_bytes());
+            let via = self.via();
+            self.queue.push_back(Step::GetOrCreate { path: parent.clone(), name: name.clone(), via });
+            if self.r.chance(1, 3) {
+                let mut p = parent.clone();
+                p.push(name.bytes());
+                let key = self.pick_key();
+                let val = self.val();
+                self.queue.push_back(Step::Put { path: p, key, val, via: Via::Vec });
+            }
+        }
+        self.queue.push_back(Step::Commit);
+    }
+
     /// Shape-targeted macros: aim at the tree shape the last commit left behind.
     fn plan_shape(&mut self, sh: &Shape, committed: &MBucket) {
         let multi: Vec<&crate::fsck::BucketShape> =
@@ -354,14 +391,24 @@ impl Gen {
             Ok(v) => v,
             Err(_) => return,
         };
-        let is_kv = |k: &Vec<u8>| matches!(view.entries.get(k), Some(Entry::Kv(_)));
+        // half of the time the macro removes nested buckets too (delete_bucket), so that a
+        // leaf can be emptied through bucket deletions alone
+        let with_buckets = self.r.chance(1, 2);
+        let is_kv = |k: &Vec<u8>| matches!(view.entries.get(k), Some(Entry::Kv(_))) || (with_buckets && view.entries.contains_key(k));
+        let del = |k: &Vec<u8>| -> Step {
+            if matches!(view.entries.get(k), Some(Entry::Sub(_))) {
+                Step::DeleteBucket { path: path.clone(), name: Blob::Raw(k.clone()) }
+            } else {
+                Step::Delete { path: path.clone(), key: Blob::Raw(k.clone()) }
+            }
+        };
         let li = self.r.below(b.leaves.len() as u64) as usize;
         let leaf = &b.leaves[li];
         match kind {
             0 => {
                 *self.macros_used.entry("empty_leaf").or_default() += 1;
                 for k in leaf.iter().filter(|k| is_kv(k)) {
-                    self.queue.push_back(Step::Delete { path: path.clone(), key: Blob::Raw(k.clone()) });
+                    self.queue.push_back(del(k));
                 }
             }
             1 => {
@@ -369,7 +416,7 @@ impl Gen {
                 let keep = self.r.below(leaf.len().max(1) as u64) as usize;
                 for (i, k) in leaf.iter().enumerate() {
                     if i != keep && is_kv(k) {
-                        self.queue.push_back(Step::Delete { path: path.clone(), key: Blob::Raw(k.clone()) });
+                        self.queue.push_back(del(k));
                     }
                 }
             }
@@ -381,7 +428,7 @@ impl Gen {
                 let hi = (boundary + self.r.range(1, 6) as usize).min(all.len());
                 for k in &all[lo..hi] {
                     if is_kv(k) {
-                        self.queue.push_back(Step::Delete { path: path.clone(), key: Blob::Raw((*k).clone()) });
+                        self.queue.push_back(del(k));
                     }
                 }
             }
@@ -407,7 +454,7 @@ impl Gen {
             4 => {
                 *self.macros_used.entry("empty_then_refill").or_default() += 1;
                 for k in leaf.iter().filter(|k| is_kv(k)) {
-                    self.queue.push_back(Step::Delete { path: path.clone(), key: Blob::Raw(k.clone()) });
+                    self.queue.push_back(del(k));
                 }
                 self.queue.push_back(Step::Scan { path: path.clone(), extra_next: 1 });
                 for k in leaf.iter().filter(|k| is_kv(k)) {
@@ -422,7 +469,7 @@ impl Gen {
                 let mask = self.r.next();
                 for (i, k) in leaf.iter().enumerate() {
                     if mask >> (i % 64) & 1 == 1 && is_kv(k) {
-                        self.queue.push_back(Step::Delete { path: path.clone(), key: Blob::Raw(k.clone()) });
+                        self.queue.push_back(del(k));
                     }
                 }
             }
@@ -430,7 +477,7 @@ impl Gen {
                 *self.macros_used.entry("empty_two_adjacent").or_default() += 1;
                 for l in b.leaves.iter().skip(li).take(2) {
                     for k in l.iter().filter(|k| is_kv(k)) {
-                        self.queue.push_back(Step::Delete { path: path.clone(), key: Blob::Raw(k.clone()) });
+                        self.queue.push_back(del(k));
                     }
                 }
             }
@@ -441,14 +488,14 @@ impl Gen {
                         continue;
                     }
                     for k in l.iter().filter(|k| is_kv(k)) {
-                        self.queue.push_back(Step::Delete { path: path.clone(), key: Blob::Raw(k.clone()) });
+                        self.queue.push_back(del(k));
                     }
                 }
             }
         }
         // touch a sub-bucket in a leaf that is about to merge
         if self.r.chance(1, 3) {
-            if let Some(k) = leaf.iter().find(|k| !is_kv(k)) {
+            if let Some(k) = leaf.iter().find(|k| matches!(view.entries.get(*k), Some(Entry::Sub(_)))) {
                 let mut p = path.clone();
                 p.push(k.clone());
                 let key = self.pick_key();
